@@ -95,6 +95,18 @@ class Check(PropertyCheck):
             second = list(c)
             if len(first) != 4 or len(second) != 4:
                 res.append(("iteration", "iterating (twice) did not yield iteration_limit instances each time"))
+            # a pass that is abandoned early (break / a few bare next() calls) does not shorten the next pass
+            e = GeneralInstanceGenerator(**kw)
+            for k, _inst in enumerate(e):
+                if k == 1:
+                    break
+            third = list(e)
+            it = iter(e)
+            next(it)
+            fourth = list(e)
+            if len(third) != 4 or len(fourth) != 4:
+                res.append(("iteration", f"after an abandoned pass the next pass yields {len(third)} / {len(fourth)} "
+                            f"instances, iteration_limit=4"))
             # explicit sizes (both, or only one) are instances of the same generator like any other
             nj, nm = kw["num_jobs"][1], kw["num_machines"][0]
             sized = [c.generate(num_jobs=nj, num_machines=nm), c.generate(num_jobs=nj), c.generate(num_machines=nm),
